@@ -38,7 +38,15 @@ Two further dimensions of the quantifier are driven the same way (spec action ->
 * an entry of the dump directory that cannot be stat()ed (DumpListingBreaks/Heals, DumpWriteSkipped -> a dangling
   symbolic link in the directory while write_all runs -> {"e":"fault","kind":"blind"|"unblind"}): >= 10 rule-set
   changes under it; the dump bound and "a rule-set change never adds at or above the bound" must hold (generator mode
-  "dumpblind"); DiskBounds_variant_writefirst.cfg is the write-before-clean-up design, which TLC must reject."""
+  "dumpblind"); DiskBounds_variant_writefirst.cfg is the write-before-clean-up design, which TLC must reject;
+* an entry of the LOG directory that cannot be stat()ed while a write rolls (LogListingBreaks/Heals; no action of the
+  code changes under it -> a dangling symbolic link present for the duration of each log_write, which is what an
+  archive removed by the other rolling logger of the folder between read_dir and fs::metadata looks like ->
+  {"e":"fault","kind":"lblind"|"lunblind"}): the roll completes its clean-up, T_LogCount / T_LogCountAfterRoll hold
+  (generator mode "logblind", DiskBounds_loglist.cfg); DiskBounds_variant_listfails.cfg is the listing that fails as
+  a whole (the code before the repair, known finding C19-roll-listing-fails), which TLC must reject.
+Violation signatures carry the environment in force at the rejected line ("under")."""
+import collections
 import concurrent.futures
 import json
 import os
@@ -91,9 +99,10 @@ ASSUME = [
     "are all its entries, whatever their names; the telemetry reader removes *.json files only",
     "'no room on the log file system' is produced with RLIMIT_FSIZE=0 around one RollingLogger write (EFBIG where a "
     "full disk gives ENOSPC; no partial appends); the unstat()able entry of the dump directory is a dangling "
-    "symbolic link that exists while write_all runs (the directory is shared with the rolling logs: left there "
-    "persistently it also breaks RollingLogger's clean-up on the unchanged tree, see "
-    "coverage.unstatable_entry_and_rolls, information only)",
+    "symbolic link that exists while write_all runs; the un-stat()able entry of the log directory is the same "
+    "kind of link, present while one RollingLogger write runs (the transient condition two loggers sharing the "
+    "folder create for each other); a foreign link that STAYS in the directory is outside the quantifier "
+    "(coverage.unstatable_entry_and_rolls, information only)",
     "a graceful stop is event_logger::stop() followed by virtual time until the logger task has ended; stop "
     "requests are handled at the loop's next wake-up, i.e. before any further periodic flush",
 ]
@@ -232,6 +241,8 @@ class World:
         self.noroom = False                                  # the log file system has no room at present
         self.blind = False                                   # the dump directory holds an entry that cannot be stat()ed
         self.blind_dumps = 0                                 # rule-set changes made while it did
+        self.logblind = False                                # ... the same while log writes (rolls) run
+        self.blind_rolls = 0                                 # writes under it that found the current file at its limit
         self.ndump = 0
 
     # --- setup ---------------------------------------------------------------------------------------------------
@@ -376,8 +387,19 @@ class World:
             cmd["many"] = many
         else:
             cmd["bytes"] = nbytes
+        link = os.path.join(self.logs, "c19.other-logs-archive")
+        if self.logblind and self.cur_size(key) >= self.conf["limit"]:
+            self.blind_rolls += 1
         for attempt in range(4):
-            r = self.proc.call(cmd)
+            if self.logblind:
+                # an entry that cannot be stat()ed while this write runs: what an archive of the OTHER rolling logger
+                # of the folder is when it is removed between this logger's read_dir and fs::metadata
+                os.symlink("c19-removed-meanwhile", link)
+            try:
+                r = self.proc.call(cmd)
+            finally:
+                if self.logblind:
+                    os.unlink(link)
             # logger::get_log_header slices [..34] of a shorter string when the sub-second part of the clock has
             # trailing zeros (probability 1e-7 per line): a C13 matter that happens before any file is touched
             if r.get("panic") and "byte index 34" in r["panic"]:
@@ -403,6 +425,18 @@ class World:
             return {}
         self.noroom = not has_room
         row = {"e": "fault", "kind": "room" if has_room else "noroom"}
+        self.rows.append(row)
+        for k in self.rows_extra:
+            self.rows_extra[k].append(dict(row))
+        return {}
+
+    def log_blindness(self, on):
+        """the environment: while log writes run, an entry of the log directory cannot be stat()ed (present for the
+        duration of each write only; all loggers of the directory see it)"""
+        if self.logblind == on:
+            return {}
+        self.logblind = on
+        row = {"e": "fault", "kind": "lblind" if on else "lunblind"}
         self.rows.append(row)
         for k in self.rows_extra:
             self.rows_extra[k].append(dict(row))
@@ -587,6 +621,10 @@ def apply_step(w, step, rnd):
         return w.room(op == "room")
     if op in ("blind", "unblind"):
         return w.blindness(op == "blind")
+    if op in ("lblind", "lunblind"):
+        if op == "lblind" and step.get("fill") and w.cur_size(step.get("key", "a")) < w.conf["limit"]:
+            w.fill(step.get("key", "a"))
+        return w.log_blindness(op == "lblind")
     if op == "kill":
         if step.get("fill") and w.cur_size(step.get("key", "a")) < w.conf["limit"]:
             w.fill(step.get("key", "a"))
@@ -691,7 +729,14 @@ def random_history(rnd, conf, nops, big=False):
             if rnd.random() < 0.2:
                 steps.append({"op": "restart"})
             steps.append({"op": "room"})
-        elif y < 0.125:
+        elif y < 0.14:
+            # an entry of the log directory cannot be stat()ed just when a roll is due, and for some writes after
+            steps.append({"op": "lblind", "fill": True, "key": rnd.choice(["a", "a", "b"])})
+            for _ in range(rnd.choice([2, 5, 9])):
+                steps.append({"op": "write", "bytes": rnd.choice([48, 64, 100, 300, lim]), "key": rnd.choice(["a", "a", "b"]),
+                              "many": rnd.random() < 0.3})
+            steps.append({"op": "lunblind"})
+        elif y < 0.155:
             # something in the dump directory cannot be stat()ed while the rule set changes again and again
             steps.append({"op": "blind"})
             steps += [{"op": "dump"}] * rnd.choice([3, 10, 12])
@@ -755,10 +800,12 @@ def crash_window(rundir, exe, c):
 
 
 def unstatable_entry_and_rolls(rundir, exe):
-    """Information only (NOT part of the verdict; candidate finding reported to the maintainers of known_findings):
-    the dangling symbolic link of the dump dimension left in the directory PERSISTENTLY while the rolling log rolls.
-    RollingLogger::get_log_files stats every entry and fails as a whole, AFTER archive_file's rename: the clean-up
-    is skipped at every roll."""
+    """Information only (NOT part of the verdict: a foreign link that stays is not something an earlier run with the
+    same settings leaves): a dangling symbolic link left in the directory PERSISTENTLY while the rolling log rolls.
+    Before 'fix: skip directory entries that cannot be inspected when listing a rolling log's files'
+    RollingLogger::get_log_files failed as a whole on it, AFTER archive_file's rename: one more file per roll without
+    bound.  The TRANSIENT form (the entry is there while one write runs) is part of the verdict: World.log_blindness,
+    known finding C19-roll-listing-fails."""
     conf = dict(MODEL)
     w = World(rundir, exe, "unstat", conf)
     try:
@@ -775,9 +822,10 @@ def unstatable_entry_and_rolls(rundir, exe):
     shutil.rmtree(w.root, ignore_errors=True)
     return {"max_count": conf["maxCount"], "files_after_each_of_14_writes": counts, "writes_refused": refused,
             "exceeds": max(counts) > conf["maxCount"],
-            "note": "a persistent dangling symlink in the log directory is outside C19's quantifier as checked here "
-                    "(the dump dimension places it only while write_all runs); with it in place the unchanged "
-                    "archive_file renames, then get_log_files()? fails before the removals: one more file per roll"}
+            "note": "a PERSISTENT dangling symlink in the log directory (outside C19's quantifier; the transient form is "
+                    "checked as environment 'lblind'): exceeds=true means get_log_files() fails as a whole after "
+                    "archive_file's rename and every roll skips its clean-up (the tree before the repair: 3,3,4,4,4,5,"
+                    "... 7 files after 14 writes, 5 refused)"}
 
 
 # ----------------------------------------------------------------------------------------------------------------
@@ -792,8 +840,28 @@ def machine_of(why):
     return "?"
 
 
+Rejected = collections.namedtuple("Rejected", "origin why under")
+ENV_ON = {"pin": "pin", "noroom": "noroom", "blind": "blind", "lblind": "lblind"}
+ENV_OFF = {"unpin": "pin", "room": "noroom", "unblind": "blind", "lunblind": "lblind"}
+
+
+def conditions_at(rows, idx):
+    """the environment conditions in force when rows[idx] was observed (since the reset line of its segment)"""
+    on = set()
+    for r in rows[:idx + 1]:
+        if r["e"] == "reset":
+            on = set()
+        elif r["e"] == "fault":
+            if r["kind"] in ENV_ON:
+                on.add(ENV_ON[r["kind"]])
+            elif r["kind"] in ENV_OFF:
+                on.discard(ENV_OFF[r["kind"]])
+    return "+".join(sorted(on)) or "none"
+
+
 def validate_segments(c, segs, name, *, timeout=900):
-    """segs: list of (origin, rows).  Returns list of (origin, why) for rejected segments (at most a few)."""
+    """segs: list of (origin, rows).  Returns list of Rejected(origin, why, under) for rejected segments (at most a
+    few); under = the environment conditions in force at the rejected line ("none", "lblind", "noroom+pin", ...)"""
     rejected = []
     segs = list(segs)
     for _ in range(6):
@@ -813,7 +881,7 @@ def validate_segments(c, segs, name, *, timeout=900):
         if not 0 <= idx < len(rows):
             raise util.ToolError("cannot locate the rejected line (depth %s of %d rows)" % (res.depth, len(rows)))
         bad = owner[idx]
-        rejected.append((bad, why))
+        rejected.append(Rejected(bad, why, conditions_at(rows, idx)))
         segs = [(o, r) for o, r in segs if o != bad]
     return rejected
 
@@ -830,6 +898,9 @@ def run(c):
           required_actions=["LogWriteNoRoll", "LogWriteRollKeep", "LogWriteRollTrim", "LogWriteRollFails",
                             "LogFaultOn", "LogFaultOff", "LogNoRoomOn", "LogNoRoomOff", "LogWriteNoRoomNoRoll",
                             "LogWriteNoRoomRoll", "Restart"])
+    c.tlc("DiskBounds", "DiskBounds_loglist.cfg", workers=8, timeout=300,
+          required_actions=["LogListingBreaks", "LogListingHeals", "LogWriteNoRoll", "LogWriteRollKeep",
+                            "LogWriteRollTrim", "Restart"])
     c.tlc("DiskBounds", "DiskBounds_kill.cfg", workers=8, timeout=300,
           required_actions=["LogKilledInRoll", "LogWriteNoRoll", "LogWriteRollKeep", "LogWriteRollTrim", "Restart"])
     c.tlc("DiskBounds", "DiskBounds_event.cfg", workers=8, timeout=300,
@@ -848,7 +919,8 @@ def run(c):
         raise util.ToolError("crash-window witness: expected LogCountLegalStrict to fail with crash points")
     # design variants that TLC must REJECT under the environment faults (the bounds are the same invariants):
     # archive by copy + truncate with no room; write the new dump before the listing that may fail
-    for cfg, inv, act in (("DiskBounds_variant_copyroll.cfg", "LogCountBound", "LogWriteNoRoomCopyFails"),
+    for cfg, inv, act in (("DiskBounds_variant_listfails.cfg", "LogCountBound", "LogWriteRollListingFails"),
+                          ("DiskBounds_variant_copyroll.cfg", "LogCountBound", "LogWriteNoRoomCopyFails"),
                           ("DiskBounds_variant_writefirst.cfg", "DumpCountBound", "DumpWriteNoCleanup")):
         wit = c.tlc("DiskBounds", cfg, workers=4, timeout=300, expect_ok=False, coverage=False)
         c.states, c.transitions = st0, tr0
@@ -867,7 +939,9 @@ def run(c):
              # ... ; flushes that fail after creating their temp file; crash loops of short runs
              ("evfail", 12, 60 if thorough else 10), ("shortruns", 14, 30 if thorough else 8),
              # ... ; no room on the log file system when a roll is due; rule-set changes while the listing fails
-             ("noroom", 12, 40 if thorough else 5), ("dumpblind", 14, 40 if thorough else 6)]
+             ("noroom", 12, 40 if thorough else 5), ("dumpblind", 14, 40 if thorough else 6),
+             # ... ; an entry of the log directory that cannot be stat()ed while writes roll
+             ("logblind", 12, 40 if thorough else 5)]
     if thorough:
         plans += [("evfail", 30, 30), ("all", 40, 100), ("log", 60, 60), ("evstop", 30, 30), ("logfault", 30, 30), ("rollkill", 30, 20)]
     hists, directed = [], []
@@ -886,7 +960,7 @@ def run(c):
         hs = tlcmod.printed_json(res, "REPLAY")
         if not hs:
             raise util.ToolError("generator printed no behaviour for %s" % machine)
-        if machine in ("evstop", "logfault", "rollkill", "evfail", "shortruns", "noroom", "dumpblind"):
+        if machine in ("evstop", "logfault", "rollkill", "evfail", "shortruns", "noroom", "dumpblind", "logblind"):
             directed += hs
         else:
             hists += hs
@@ -940,6 +1014,18 @@ def run(c):
     c.extra["writes_following_a_write_without_room_replayed"] = noroom_after
     c.extra["rule_set_changes_while_the_listing_fails_replayed"] = blind_dumps
     c.extra["of_which_with_the_configured_number_of_dumps_present"] = blind_full
+    lblind_rolls = sum(1 for h in uniq for i in range(1, len(h))
+                       if h[i]["op"] == "write" and h[i - 1].get("lblind") and h[i - 1]["cur"] >= MODEL["limit"] // UNIT
+                       and not h[i - 1].get("pin"))
+    lblind_rolls_full = sum(1 for h in uniq for i in range(1, len(h))
+                            if h[i]["op"] == "write" and h[i - 1].get("lblind")
+                            and h[i - 1]["cur"] >= MODEL["limit"] // UNIT and not h[i - 1].get("pin")
+                            and len(h[i - 1]["arch"]) + 1 == MODEL["maxCount"])
+    c.extra["rolls_with_an_unstatable_entry_in_the_log_directory_replayed"] = lblind_rolls
+    c.extra["of_which_from_a_directory_holding_exactly_the_configured_count"] = lblind_rolls_full
+    if lblind_rolls < 10 or lblind_rolls_full < 3:
+        raise util.ToolError("generated behaviours do not exercise rolls with an unstat()able entry in the log "
+                             "directory (%d, %d from a full legal directory)" % (lblind_rolls, lblind_rolls_full))
     if noroom_rolls < 5 or noroom_after < 10 or blind_dumps < 10 or blind_full < 5:
         raise util.ToolError("generated behaviours do not exercise rolls without room (%d, then %d more writes) / "
                              "rule-set changes under a failing listing (%d, %d at the bound)"
@@ -985,7 +1071,7 @@ def run(c):
     # 3. random histories, real constants (counts 5 / 30 / 5; the 10 MiB limit in the 'real' ones)
     nsmall, nops = (60, 400) if thorough else (10, 250)
     nbig = 4 if thorough else 1
-    rand_refused = rand_stops_full = rand_kills = rand_blind = 0
+    rand_refused = rand_stops_full = rand_kills = rand_blind = rand_lblind = 0
     for i in range(nsmall + nbig):
         big = i >= nsmall
         conf = dict(REAL) if big else dict(REAL, limit=rnd.choice([256, 1000, 4096]))
@@ -1007,6 +1093,7 @@ def run(c):
         rand_stops_full += w.stops_full
         rand_kills += w.kills
         rand_blind += w.blind_dumps
+        rand_lblind += w.blind_rolls
         if i == 0 or big:
             c.sample({"kind": "random history, real counts" + (", real 10 MiB limit" if big else ""), "conf": conf,
                       "first_ops": steps[:12], "n_ops": len(steps), "observed_last_line": w.rows[-1]})
@@ -1016,23 +1103,25 @@ def run(c):
     c.extra["random_histories_stops_over_full_directory"] = rand_stops_full
     c.extra["random_histories_runs_killed_inside_a_roll"] = rand_kills
     c.extra["random_histories_rule_set_changes_while_the_listing_fails"] = rand_blind
+    c.extra["random_histories_rolls_with_an_unstatable_entry_in_the_log_directory"] = rand_lblind
 
     # 4. I->S: everything observed, against the property
     nrows = sum(len(r) for _, r in segs)
     util.log("validating %d observed lines (%d segments) against DiskBoundsTrace" % (nrows, len(segs)))
     rejected = validate_segments(c, segs, "c19_all")
-    c.traces_validated += len({o for o, _ in segs}) - len({o for o, _ in rejected})
+    c.traces_validated += len({o for o, _ in segs}) - len({r.origin for r in rejected})
     c.extra["trace_lines_validated"] = nrows
-    for o, why in rejected:
+    for o, why, _under in rejected:
         # re-execute the offending history alone, from its artefact; only a verdict that reproduces counts
         case = cases[o]
         w2, _ = run_behaviour(rundir, exe, "again", case, random.Random(c.seed))
         rej2 = validate_segments(c, [(o, s) for s in w2.segments()], "c19_again")
         if rej2:
-            why2 = rej2[0][1]
+            why2, under = rej2[0].why, rej2[0].under
             m = machine_of(why2)
-            c.violation("%s: the observed directory contents break C19 (%s) on history %s" % (m, why2, o),
-                        {"machine": m, "broken": why2.split()[-1]},
+            c.violation("%s: the observed directory contents break C19 (%s, environment: %s) on history %s"
+                        % (m, why2, under, o),
+                        {"machine": m, "broken": why2.split()[-1], "under": under},
                         {"kind": "history", "case": {k: v for k, v in case.items() if k != "expect"},
                          "rows": w2.rows[:400]})
         else:
@@ -1041,7 +1130,7 @@ def run(c):
         raise util.ToolError("a rejected trace did not reproduce: %s" % c.extra["unreproduced"])
 
     # self-validation of the trace specification: a corrupted copy of an accepted segment must be rejected
-    good = next((r for o, r in segs if o not in {x for x, _ in rejected} and len(r) > 3), None)
+    good = next((r for o, r in segs if o not in {x.origin for x in rejected} and len(r) > 3), None)
     if good is not None:
         bad = json.loads(json.dumps(good))
         bad[0]["files"], bad[0]["ev"], bad[0]["dumps"] = [], 0, []
@@ -1081,11 +1170,13 @@ def run(c):
               "(kill; states identified up to the sizes of archived files), graceful stops of the event logger "
               "and flushes failing after the creation of their temp file anywhere, directories found with leftover "
               "temp files (event), no room on the log file system anywhere (log), the dump directory unlistable "
-              "anywhere (dumps), two design variants rejected by TLC as witnesses (copy + truncate roll, write "
+              "anywhere (dumps), an un-stat()able entry in the log directory anywhere (loglist), three design "
+              "variants rejected by TLC as witnesses (listing that fails as a whole, copy + truncate roll, write "
               "before clean-up; not counted); S->I: behaviours "
               "simulated from the spec (seeded; undirected plus the directed families stop/restart cycles over full "
               "event directories, writes under the rename fault, runs killed inside a roll by a real SIGKILL, failed "
               "flushes over directories with leftover temp files, crash loops of short runs, rolls without room, "
+              "rolls with an un-stat()able directory entry, "
               "rule-set changes under a failing listing) "
               "replayed on the real code, listing and accepted/refused compared after every operation; "
               "I->S: all observed lines plus seeded random histories with the real counts validated by TLC against "
@@ -1110,9 +1201,9 @@ def replay(c, path):
     c.sample({"replayed": path, "observed_last_line": w.rows[-1]})
     c.rule = "re-execution of one saved history on the real code, validated against DiskBoundsTrace"
     if rej:
-        why = rej[0][1]
+        why, under = rej[0].why, rej[0].under
         m = machine_of(why)
-        c.violation("%s: the observed directory contents break C19 (%s)" % (m, why),
-                    {"machine": m, "broken": why.split()[-1]}, art["case"])
+        c.violation("%s: the observed directory contents break C19 (%s, environment: %s)" % (m, why, under),
+                    {"machine": m, "broken": why.split()[-1], "under": under}, art["case"])
     else:
         c.traces_validated += 1
